@@ -30,6 +30,7 @@ THEOREMS = [
 ]
 TRUSTED = [
     "str.capitalize/split/join/strip/find and dict insertion order as modelled in C06/Model.lean (ASCII names)",
+    "collections.abc.MutableMapping mixin methods (pop/popitem/clear/update/setdefault/get(default)/items) as expanded by hand into the primitive operations they perform (c06.py `_expand`); tie only, no theorem mentions them",
     "CPython `re` for _ABNF.field_name/field_value/_FORBIDDEN_HEADER_CHARS_RE and r'\\r?\\n$' (modelled by hand)",
 ]
 ASSUMPTIONS = [
@@ -42,6 +43,7 @@ RULE = ("op sequences over a small name/value alphabet with case variants, valid
         "pattern of every short token over a tchar alphabet is probed against every other spelling of the same name "
         "(add/set/del/get/get_list/in/parse_line); "
         "copy cases: a history, a copy (copy()/copy.copy/HTTPHeaders(h)/deepcopy/pickle), a history on one object, then one on the other; "
+        "mixin cases: MutableMapping mixin calls (pop, pop/get with default, setdefault, items, update, popitem, clear) interleaved with primitive ops, expanded into primitives for model and multimap; "
         "parse cases in both validation modes (bytes / _chars_are_bytes=False with non-latin1 and control characters); "
         "non-trivial = at least one name holds >=2 values or a cached read precedes a mutation; distinct by canonical JSON")
 EXHAUSTIVE = {"quick": False, "thorough": False}
@@ -262,6 +264,9 @@ def gen_cases(rng, tier):
     elif tier == "thorough":
         yield from _enum_copy_cases(["a", "A", "b"], 2, ["copy", "copy.copy", "ctor", "deepcopy", "pickle"])
         yield from _enum_copy_cases(["a", "A"], 3, ["copy", "deepcopy"])
+    yield from _enum_mixin_cases(["a", "A"], 2 if tier != "thorough" else 3)
+    for _ in range({"quick": 600, "thorough": 8000, "search": 600}[tier]):
+        yield {"kind": "mixin", "ops": _rand_mixin_ops(rng, rng.randint(1, 20), _pick_names(rng))}
     # every spelling of every short token against every other spelling of the same token (all tiers: the search
     # stage needs it too), and the same for the listed real-world style names
     yield from _sweep_cases(_family_pairs())
@@ -420,6 +425,142 @@ def _present_probes(ops):
     return bad
 
 
+# ---- MutableMapping mixin methods (pop / setdefault / items / update / popitem / clear / get with default) --------
+# They are stdlib code running on top of the modelled primitives.  A mixin op is executed for real on HTTPHeaders and
+# EXPANDED into the primitive ops `collections.abc.MutableMapping` performs, which model and multimap then run; the
+# primitive outputs are folded back into the mixin's result.  Where the expansion depends on the state (setdefault:
+# is the key there?  items/popitem/clear: which keys?) it uses what the implementation reported through `in` /
+# iteration just before the call — and that report is itself part of the expansion (`contains` / `keys`), so a wrong
+# report shows up as a mismatch.
+MIXINS = ("pop", "popd", "getd", "setdefault", "items", "update", "popitem", "clear")
+
+
+def _apply_mixin(h, op):
+    """-> (output, aux)"""
+    k = op[0]
+    aux = None
+    try:
+        if k in ("setdefault", "pop", "popd", "getd"):
+            aux = op[1] in h
+        elif k in ("items", "popitem", "clear"):
+            aux = list(h)
+        if k == "pop":
+            return h.pop(op[1]), aux
+        if k == "popd":
+            return h.pop(op[1], op[2]), aux
+        if k == "getd":
+            return h.get(op[1], op[2]), aux
+        if k == "setdefault":
+            return h.setdefault(op[1], op[2]), aux
+        if k == "items":
+            return [list(p) for p in h.items()], aux
+        if k == "update":
+            h.update([tuple(p) for p in op[1]]); return "U", aux
+        if k == "popitem":
+            return list(h.popitem()), aux
+        if k == "clear":
+            h.clear(); return "U", aux
+        raise AssertionError(k)
+    except Exception as e:
+        return _exc(e), aux
+
+
+def _expand(case, impl):
+    """-> (primitive ops, plan); plan[i] = (first primitive index, count) of case op i"""
+    prims, plan = [], []
+    for op, aux in zip(case["ops"], impl["aux"]):
+        k = op[0]
+        if k in ("pop", "popd"):
+            e = [["get", op[1]], ["del", op[1]]]
+        elif k == "getd":
+            e = [["get", op[1]]]
+        elif k == "setdefault":
+            e = [["contains", op[1]], ["get", op[1]]] + ([] if aux else [["set", op[1], op[2]]])
+        elif k == "items":
+            e = [["keys"]] + [["get", x] for x in aux]
+        elif k == "update":
+            e = [["set", n, v] for n, v in op[1]]
+        elif k == "popitem":
+            e = [["keys"]] + ([["get", aux[0]], ["del", aux[0]]] if aux else [])
+        elif k == "clear":
+            e = [["keys"]] + [["del", x] for x in aux]     # popitem's `self[key]` only fills a cache entry that `del` drops
+        else:
+            e = [op]
+        plan.append((len(prims), len(e)))
+        prims += e
+    return prims, plan
+
+
+def _unfold(case, impl):
+    """what the primitive ops of the expansion must have returned, given what the mixin call returned (and what
+    `in` / iteration reported just before it); "IMPL-INCONSISTENT" where no primitive outputs explain the result"""
+    outs = []
+    for op, aux, out in zip(case["ops"], impl["aux"], impl["outs"]):
+        k = op[0]
+        bad = []
+        if k == "pop":
+            e = [out, "U"] if aux else ["KeyError", "KeyError"]
+            bad = [] if aux or out == "KeyError" else ["IMPL-INCONSISTENT"]
+        elif k == "popd":
+            e = [out, "U"] if aux else ["KeyError", "KeyError"]
+            bad = [] if aux or out == op[2] else ["IMPL-INCONSISTENT"]
+        elif k == "getd":
+            e = [out] if aux else ["KeyError"]
+            bad = [] if aux or out == op[2] else ["IMPL-INCONSISTENT"]
+        elif k == "setdefault":
+            e = [True, out] if aux else [False, "KeyError", "U"]
+            bad = [] if aux or out == op[2] else ["IMPL-INCONSISTENT"]
+        elif k == "items":
+            ok = isinstance(out, list) and [p[0] for p in out] == aux
+            e = [aux] + ([p[1] for p in out] if ok else ["IMPL-INCONSISTENT"])
+        elif k == "update":
+            e = ["U"] * len(op[1])
+            bad = [] if out == "U" else ["IMPL-INCONSISTENT"]
+        elif k == "popitem":
+            if aux:
+                ok = isinstance(out, list) and out[0] == aux[0]
+                e = [aux, out[1] if ok else "IMPL-INCONSISTENT", "U"]
+            else:
+                e = [aux]
+                bad = [] if out == "KeyError" else ["IMPL-INCONSISTENT"]
+        elif k == "clear":
+            e = [aux] + ["U"] * len(aux)
+            bad = [] if out == "U" else ["IMPL-INCONSISTENT"]
+        else:
+            e = [out]
+        outs += e + bad
+    return outs
+
+
+def _rand_mixin_ops(rng, n, names):
+    ops = []
+    for _ in range(n):
+        if rng.random() < 0.55:
+            ops += _rand_ops(rng, 1, names)
+            continue
+        k = rng.choice(MIXINS + ("pop", "setdefault", "items"))
+        name = rng.choice(names)
+        if k == "pop":
+            ops.append(["pop", name])
+        elif k in ("popd", "getd", "setdefault"):
+            ops.append([k, name, rng.choice(VALUES)])
+        elif k == "update":
+            ops.append(["update", [[rng.choice(names), rng.choice(VALUES)] for _ in range(rng.randint(0, 3))]])
+        else:
+            ops.append([k])
+    return ops
+
+
+def _enum_mixin_cases(names, maxlen):
+    muts = [["add", n, "1"] for n in names] + [["get", n] for n in names] + [["pop", n] for n in names] \
+        + [["setdefault", n, "2"] for n in names] + [["popd", names[0], "d"], ["items"], ["popitem"], ["clear"],
+           ["update", [[names[0], "3"], [names[-1], "4"]]], ["parseLine", " c"]]
+    tail = [["items"], ["getAll"], ["getd", names[-1], "d"], ["pop", names[0]], ["len"], ["popitem"], ["keys"]]
+    for L in range(1, maxlen + 1):
+        for seq in itertools.product(muts, repeat=L):
+            yield {"kind": "mixin", "ops": [list(o) for o in seq] + tail, "enum": True}
+
+
 def _via_pickle(h):
     import pickle
     return pickle.loads(pickle.dumps(h))
@@ -469,6 +610,16 @@ def run_impl(case):
             except Exception as e:
                 extra["roundtrip"] = _exc(e)
         return {"outs": outs, **extra}
+    if case["kind"] == "mixin":
+        h = HTTPHeaders()
+        outs, auxs = [], []
+        for op in case["ops"]:
+            if op[0] in MIXINS:
+                o, a = _apply_mixin(h, op)
+            else:
+                o, a = _apply(h, op), None
+            outs.append(o); auxs.append(a)
+        return {"outs": outs, "aux": auxs}
     if case["kind"] == "parse":
         try:
             h = HTTPHeaders.parse(case["text"]) if case.get("bytes", True) else \
@@ -499,6 +650,8 @@ def run_impl(case):
 def model_requests(case, impl):
     if case["kind"] == "ops":
         return [line(ID, "run", [[atom(o[0])] + o[1:] for o in case["ops"]])]
+    if case["kind"] == "mixin":
+        return [line(ID, "run", [[atom(o[0])] + o[1:] for o in _expand(case, impl)[0]])]
     if case["kind"] == "parse":
         return [line(ID, "parse" if case.get("bytes", True) else "parseU", case["text"])]
     return [line(ID, "copyrun", _copy_arg(case))]
@@ -521,6 +674,8 @@ def _py(reply):
 def model_result(case, replies):
     if case["kind"] == "ops":
         return _py(replies[0])
+    if case["kind"] == "mixin":
+        return _py(replies[0])          # outputs of the primitive ops of the expansion (impl side: _unfold)
     if case["kind"] == "parse":
         return _py(replies[0])
     st, vals = parse_reply(replies[0])
@@ -532,6 +687,8 @@ def impl_view(case, impl):
     """the part of the implementation's result the model predicts"""
     if case["kind"] == "ops":
         return impl["outs"]
+    if case["kind"] == "mixin":
+        return _unfold(case, impl)
     if case["kind"] == "parse":
         return impl["pairs"]
     if isinstance(impl["copy"], str):
@@ -584,6 +741,8 @@ def _lines_keep_lf(text):
 def spec_requests(case, impl):
     if case["kind"] == "ops":
         return [line(ID, "spec", [[atom(o[0])] + o[1:] for o in case["ops"]])]
+    if case["kind"] == "mixin":
+        return [line(ID, "spec", [[atom(o[0])] + o[1:] for o in _expand(case, impl)[0]])]
     if case["kind"] == "parse":
         if not case.get("bytes", True):
             return []       # the Lean multimap validates values as bytes; this mode is judged by _ref_parse only
@@ -628,6 +787,16 @@ def spec_violation(case, impl, replies):
             return "present-deletable: after %d ops and del h[%r], %r is still reported present by %s" % (cut, spelling, name, "/".join(after))
         if impl.get("roundtrip") not in (None, True):
             return "parse(str(h)) != h: %r" % (impl["roundtrip"],)
+        return None
+    if case["kind"] == "mixin":
+        prims, plan = _expand(case, impl)
+        want, got = _py(replies[0]), _unfold(case, impl)
+        for (op, (i, n)) in zip(case["ops"], plan):
+            for p, w, g in zip(prims[i:i + n], want[i:i + n], got[i:i + n]):
+                if _ci(p[0], w) != _ci(p[0], g):
+                    return "mixin %r (as %r): multimap says %r, HTTPHeaders implies %r" % (op[:2], p, w, g)
+        if "IMPL-INCONSISTENT" in got:
+            return "mixin result not explained by the primitive operations: %r" % (got,)
         return None
     if case["kind"] == "copy":
         if isinstance(impl["copy"], str):
@@ -688,6 +857,8 @@ def nontrivial(case, impl):
             if o[0] == "add":
                 seen[o[1].lower()] = seen.get(o[1].lower(), 0) + 1
         return any(v >= 2 for v in seen.values()) and any(o[0] in ("get", "del") for o in case["ops"])
+    if case["kind"] == "mixin":
+        return any(o[0] in MIXINS for o in case["ops"])
     if case["kind"] == "parse":
         return isinstance(impl["pairs"], list) and len(impl["pairs"]) >= 1
     return len(case["ops"]) > 0
@@ -695,6 +866,8 @@ def nontrivial(case, impl):
 
 def stats(case, impl):
     out = ["kind:" + case["kind"] + ("-sweep" if case.get("sweep") else "")]
+    if case["kind"] == "mixin":
+        out += ["mixin:" + o[0] for o in case["ops"] if o[0] in MIXINS]
     if case["kind"] == "parse":
         out += ["parse-mode:" + ("bytes" if case.get("bytes", True) else "chars"),
                 "parse:" + (impl["pairs"] if isinstance(impl["pairs"], str) else "ok")]
@@ -718,6 +891,9 @@ def signature(case, impl, why):
             return "ops/present-deletable/" + ("not-deletable" if " gave " in why else "still-present")
         m = re.match(r"op \d+ \['(\w+)'", why)
         return "ops/%s/%s" % (m.group(1) if m else "roundtrip", "uncaught" if "Uncaught" in why else "wrong-output")
+    m = re.match(r"mixin \['(\w+)'", why)
+    if m:
+        return "mixin/%s/%s" % (m.group(1), "uncaught" if "Uncaught" in why else "wrong-output")
     m = re.match(r"on the (\w+), op \d+ \['(\w+)'", why)
     if m:
         return "copy/%s/%s/%s" % (m.group(1), m.group(2), "uncaught" if "Uncaught" in why else "wrong-output")
@@ -725,7 +901,7 @@ def signature(case, impl, why):
 
 
 def shrink(case):
-    if case["kind"] in ("ops", "copy"):
+    if case["kind"] in ("ops", "copy", "mixin"):
         ops = case["ops"]
         size = len(ops) // 2
         while size > 1:     # drop whole chunks first (chained probes), then single ops
